@@ -4,7 +4,7 @@ set_option linter.unusedSimpArgs false
 # C18 — callback adapters fire exactly once with the right outcome
 
 Model: `CoclsModel/Callback.lean` (micro-step machines of `callback_await`, `make_promise`, `discard`, `future_conv`,
-`call_fn_future_awaiter` around one awaited operation); invariant: `CoclsModel/CallbackProofs.lean`.
+`call_fn_future_awaiter` and the hand-subscribed `call_fn_awaiter` around one awaited operation); invariant: `CoclsModel/CallbackProofs.lean`.
 
 Every theorem quantifies over **all** well-formed configurations `c` — adapter, converter behaviour and conversion
 function, outcome kinds, any number `c.n - 1` of promise invocations / destructor agents on other threads with arbitrary
@@ -71,11 +71,12 @@ theorem quiescent_used (hwf : c.WF) (hr : Reach c s) (hd : AllDone c s) (hs : s.
   | agent t => have := (h.tok_agent t).1 htok; rw [hall t] at this; simp [holds] at this
 
 /-- **Exactly once at quiescence.**  When all agents have finished and the awaited operation is resolved, the completion
-has run exactly once; the user callback of `callback_await` / `make_promise` / `call_fn_future_awaiter` was invoked
+has run exactly once; the user callback of `callback_await` / `make_promise` / `call_fn_future_awaiter` / `call_fn_awaiter` was invoked
 exactly once and saw the operation's outcome (value, exception, or broken promise). -/
 theorem c18_once (hwf : c.WF) (hpre : Pre c) (hr : Reach c s) (hd : AllDone c s) (hs : s.slot = Slot.ready) :
     s.calls = 1 ∧
-    (c.adapter = Adapter.cbAwait ∨ c.adapter = Adapter.mkProm ∨ c.adapter = Adapter.callFn → s.saw = [s.payload.obs]) ∧
+    (c.adapter = Adapter.cbAwait ∨ c.adapter = Adapter.mkProm ∨ c.adapter = Adapter.callFn ∨ c.adapter = Adapter.callAwt →
+      s.saw = [s.payload.obs]) ∧
     (c.adapter = Adapter.discard ∨ c.adapter = Adapter.conv → s.saw = []) := by
   have h := reach_inv hwf hr
   have hu := quiescent_used hwf hr hd hs
@@ -83,7 +84,7 @@ theorem c18_once (hwf : c.WF) (hpre : Pre c) (hr : Reach c s) (hd : AllDone c s)
   unfold Pre at hpre
   refine ⟨by rw [h.calls_eq, if_pos hu], ?_, ?_⟩
   · intro ha; rw [h2]; unfold sawOf cbAwaitSees
-    rcases ha with ha | ha | ha <;> simp [ha, hpre]
+    rcases ha with ha | ha | ha | ha <;> simp [ha, hpre]
   · intro ha; rw [h2]; unfold sawOf
     rcases ha with ha | ha <;> simp [ha]
 
@@ -420,7 +421,8 @@ outer future, and released what it allocated. -/
 theorem c18_once_per_operation (ops : List OpRun) (hwf : ∀ o ∈ ops, o.c.WF ∧ Pre o.c) :
     Pointwise (fun o s => AllDone o.c s → s.slot = Slot.ready →
         s.calls = 1 ∧ s.frees = s.allocs ∧
-        (o.c.adapter = Adapter.cbAwait ∨ o.c.adapter = Adapter.mkProm ∨ o.c.adapter = Adapter.callFn → s.saw = [s.payload.obs]) ∧
+        (o.c.adapter = Adapter.cbAwait ∨ o.c.adapter = Adapter.mkProm ∨ o.c.adapter = Adapter.callFn ∨ o.c.adapter = Adapter.callAwt →
+          s.saw = [s.payload.obs]) ∧
         (o.c.adapter = Adapter.conv → s.outer = some (convRes o.c s.payload) ∧ s.outerSets = 1))
       ops (runOps Slot.null ops) := by
   have hr := c18_reuse_reach ops (fun o ho => (hwf o ho).1)
@@ -513,6 +515,16 @@ example :
     let o3 : OpRun := { c := { adapter := Adapter.callFn, n := 2, rk := fun _ => some (RK.value 5) }, sched := [0, 1, 0, 1, 1] }
     (runOps Slot.null [o1, o2, o3]).map (fun s => (s.calls, s.saw, s.slot, s.nxt)) =
       [(1, [Obs.val 3], Slot.ready, Slot.null), (1, [Obs.exc 4], Slot.ready, Slot.null), (1, [Obs.val 5], Slot.ready, Slot.null)] := by
+  decide
+
+/-- `call_fn_awaiter` driven by hand (`ready()` load, then CAS), two operations on the same awaiter node: first the
+resolver slips in between the load and the CAS (refused, the caller resumes the awaiter himself), then an operation that
+is already resolved at `ready()`; one callback each, nothing allocated, the node unlinked again -/
+example :
+    let o1 : OpRun := { c := { adapter := Adapter.callAwt, n := 2, rk := fun _ => some (RK.value 8) }, sched := [0, 1, 1, 0, 0, 1] }
+    let o2 : OpRun := { c := { adapter := Adapter.callAwt, n := 1, rk := fun _ => none, pre := some RK.drop }, sched := [0, 0, 0] }
+    (runOps Slot.null [o1, o2]).map (fun s => (s.calls, s.saw, s.allocs, s.slot, s.nxt)) =
+      [(1, [Obs.val 8], 0, Slot.ready, Slot.null), (1, [Obs.canceled], 0, Slot.ready, Slot.null)] := by
   decide
 
 end Cocls.Callback
